@@ -1186,6 +1186,11 @@ def oracle_C16(cmds, impl, model, stats: Stats):
         if m is None or sem is None or not il.startswith("ok doomed"):
             continue
         doomed, msgs = field(il, "doomed"), int(field(il, "messages"))
+        if field(sem, "kd") != "T":
+            # "has rows" is only well defined under the documented key contract (key-based vs row-based
+            # deduplication differ otherwise); the correspondence still compares the verdicts
+            stats.note(cmds[k] + m["tree_text"], False, "not-key-determined")
+            continue
         rows = field(sem, "tree")       # the content of the relation that was diagnosed
         empty = rows == "[]"
         kinds = sorted({kd for kd, _ in tree_nodes(m["tree"])} - {"select"})
